@@ -24,7 +24,7 @@ from harness.common import pmap  # noqa: E402
 def sources(rng):
     """spec -> (driver module, function, scenarios)"""
     from harness import e2e, forcedrv, trackdrv
-    from harness.checks import c04, c12, c13, c16, c18, c20
+    from harness.checks import c04, c12, c13, c14, c16, c18, c20
     out = {}
     out["LadimTrace"] = ("harness.e2e", "run_e2e", [e2e.base_scenario(rng, nsteps=rng.randrange(3, 6)) for _ in range(6)])
     out["ForceTrace"] = ("harness.forcedrv", "force_trace", [forcedrv.time_scenario(rng) for _ in range(3)] + [forcedrv.space_scenario(rng) for _ in range(3)])
@@ -32,6 +32,7 @@ def sources(rng):
     out["PstateTrace"] = ("harness.checks.c05", "random_history", [dict(seed=rng.randrange(10**6), len=14, big=False, cls={}) for _ in range(6)])
     out["TrackTrace"] = ("harness.trackdrv", "track_trace", [trackdrv.scenario(rng, horiz_diff=k % 2 == 0, vert_diff=k % 3 == 0, vadv=k % 3 == 1, advect=True, land=True, flat=False)
                                                              for k in range(6)])
+    out["PairTrace"] = ("harness.checks.c14", "pair_only", [c14.family(rng, k) for k in (0, 2, 3)])
     out["ClockTrace"] = ("harness.checks.c13", "clock_trace", c13.clocks("quick", rng)[:6])
     out["GeoTrace"] = ("harness.checks.c16", "grid_trace", c16.grid_scenarios("quick", rng)[:4])
     out["VertTrace"] = ("harness.checks.c12", "exact_trace", c12.exact_scenarios("quick", rng)[:3])
